@@ -317,7 +317,7 @@ pub fn gen_corpus(rng: &mut Rng, big_ok: bool, force_big: bool) -> Corpus {
     let f_style = rng.weighted(&[40, 15, 8, 20, 10]);
     let f_step = *rng.pick(&[0.25f64, 0.5, 1.0, 2.5, 10.0]);
     let f_jit = rng.chance(1, 3);
-    let i_style = rng.weighted(&[35, 25, 15, 15, 8, 7]);
+    let i_style = rng.weighted(&[35, 25, 15, 15, 8]);
     let u_style = rng.weighted(&[35, 25, 25, 7, 6, 8]);
     // some instant between 2014 and 2020 (ms)
     let d_any: i64 = 1_400_000_000_000 + rng.irange(0, 200_000_000_000);
@@ -328,8 +328,6 @@ pub fn gen_corpus(rng: &mut Rng, big_ok: bool, force_big: bool) -> Corpus {
     let ip_pool = rng.urange(1, 30) as u64;
     let const_f = rng.irange(-20, 20) as f64 * f_step;
     let const_i = rng.irange(-100, 100);
-    // beyond 2^53: neighbouring integers share one f64 image with a long mantissa
-    let big_i = rng.irange(1 << 53, 1 << 62) * if rng.bool() { -1 } else { 1 };
 
     let mut docs = Vec::with_capacity(n);
     for id in 0..n {
@@ -403,9 +401,7 @@ pub fn gen_corpus(rng: &mut Rng, big_ok: bool, force_big: bool) -> Corpus {
                 1 => rng.irange(-50, 50) * 10,
                 2 => rng.irange(0, 1000),
                 3 => rng.irange(-1_000_000, 1_000_000),
-                4 => const_i,
-                // a few neighbouring large values
-                _ => big_i + rng.irange(0, 2),
+                _ => const_i,
             }
         };
         if present(rng, dens[Fd::Ff.idx()]) {
